@@ -63,11 +63,11 @@ func Judge(cfg Config, recs []*ConnRec) []Finding {
 		}
 		// Tampered Finished: the receiving side must not complete.
 		switch r.Tamper {
-		case "flipS", "rogueS", "mitmCH":
+		case "flipS", "rogueS", "mitmCH", "shortS0", "shortS6", "longS13":
 			if r.TamperedCount > 0 && r.cOK() {
 				out = append(out, Finding{"client-accepted-bad-server-finished/" + r.Tamper, fmt.Sprintf("%s: the client completed although every server Finished it could have received was invalid (%d datagrams tampered)", at, r.TamperedCount)})
 			}
-		case "flipC", "rogueC":
+		case "flipC", "rogueC", "shortC0", "shortC6", "longC13":
 			if r.TamperedCount > 0 && r.sOK() {
 				out = append(out, Finding{"server-accepted-bad-client-finished/" + r.Tamper, fmt.Sprintf("%s: the server completed although every client Finished it could have received was invalid (%d datagrams tampered)", at, r.TamperedCount)})
 			}
